@@ -71,8 +71,8 @@ PROPS = {
     },
     "C13": {
         "pkg": "session", "level": "exploration",
-        "quick": {"stages": [st("^TestC13Termination", 600), st("^TestC13WebSocketSend", 3, shrinktime="40s"), st("^TestC13WebSocketCancel", 4, shrinktime="40s"), st("^TestC13RouterInboundClose", 150), st("^TestC13SQLiteBlockedInserter", 6), st("^TestC13SQLiteBlockedReaders", 12), st("^TestC13LargeAnswerCut", 120, shards=2), st("^TestC13RouterManySessions", 12), st("^TestC13WebSocketIdlePing", 40), st("^TestC13WebSocketFloodingPeer", 3), st("^TestC13CancelWhileSending", 60, shards=2)]},
-        "thorough": {"stages": [st("^TestC13Termination", 15000, shards=10, timeout=3000), st("^TestC13Termination", 2000, shards=2, race=True, timeout=3000), st("^TestC13WebSocketSend", 20, shards=1, shrinktime="60s"), st("^TestC13WebSocketCancel", 30, shards=1, shrinktime="60s"), st("^TestC13RouterInboundClose", 3000, shards=2), st("^TestC13SQLiteBlockedInserter", 60, shards=1), st("^TestC13SQLiteBlockedReaders", 300, shards=2), st("^TestC13LargeAnswerCut", 3000, shards=4, timeout=3000), st("^TestC13RouterManySessions", 300, shards=2, timeout=3000), st("^TestC13WebSocketIdlePing", 1500, shards=3, timeout=3000), st("^TestC13WebSocketFloodingPeer", 30, shards=3, timeout=3000), st("^TestC13CancelWhileSending", 3000, shards=4, timeout=3000), st("^TestC13CancelWhileSending", 100, shards=2, race=True, timeout=3000)]},
+        "quick": {"stages": [st("^TestC13Termination", 600), st("^TestC13WebSocketSend", 3, shrinktime="40s"), st("^TestC13WebSocketCancel", 4, shrinktime="40s"), st("^TestC13RouterInboundClose", 150), st("^TestC13SQLiteBlockedInserter", 6), st("^TestC13SQLiteBlockedReaders", 12), st("^TestC13LargeAnswerCut", 120, shards=2), st("^TestC13RouterManySessions", 12), st("^TestC13WebSocketIdlePing", 40), st("^TestC13WebSocketFloodingPeer", 3), st("^TestC13WebSocketLatePong", 3), st("^TestC13CancelWhileSending", 60, shards=2)]},
+        "thorough": {"stages": [st("^TestC13Termination", 15000, shards=10, timeout=3000), st("^TestC13Termination", 2000, shards=2, race=True, timeout=3000), st("^TestC13WebSocketSend", 20, shards=1, shrinktime="60s"), st("^TestC13WebSocketCancel", 30, shards=1, shrinktime="60s"), st("^TestC13RouterInboundClose", 3000, shards=2), st("^TestC13SQLiteBlockedInserter", 60, shards=1), st("^TestC13SQLiteBlockedReaders", 300, shards=2), st("^TestC13LargeAnswerCut", 3000, shards=4, timeout=3000), st("^TestC13RouterManySessions", 300, shards=2, timeout=3000), st("^TestC13WebSocketIdlePing", 1500, shards=3, timeout=3000), st("^TestC13WebSocketFloodingPeer", 30, shards=3, timeout=3000), st("^TestC13WebSocketLatePong", 30, shards=3, timeout=3000), st("^TestC13CancelWhileSending", 3000, shards=4, timeout=3000), st("^TestC13CancelWhileSending", 100, shards=2, race=True, timeout=3000)]},
     },
     "C20": {
         "pkg": "core", "level": "exploration",
